@@ -50,8 +50,12 @@ func handlerSetup() {
 		func(ev ucon.VoteMsgEvent, st ucon.MsgReceivedStatus) (error, bool) { return nil, false })
 }
 
+var handlerInputModified bool
+
 func runHandleMsg(data []byte) (res string, pan string) {
 	handlerSetup()
+	orig := append([]byte{}, data...)
+	defer func() { handlerInputModified = string(orig) != string(data) }()
 	func() {
 		defer func() {
 			if x := recover(); x != nil {
@@ -247,6 +251,11 @@ func (g *genState) handlerObs(which string, data []byte, version uint64, res, pa
 			g.hit(hit{What: "handler-accepted-noncanonical-envelope:HandleMsg", Type: "handler:HandleMsg", Bytes: hex.EncodeToString(data),
 				Note: "HandleMsg returned nil for bytes that are not one canonical value; the raw input is what gets cached and relayed"})
 		}
+	}
+	if which == "HandleMsg" && handlerInputModified {
+		handlerInputModified = false
+		g.res.Count("handler_wrote_into_input")
+		g.hit(hit{What: "handler-wrote-into-its-input:HandleMsg", Type: "handler:HandleMsg", Bytes: hex.EncodeToString(data), Note: "the byte string passed to HandleMsg was modified by the call (bytes shown are after the call)"})
 	}
 	if pan != "" {
 		g.res.Count("handler_panic:" + which)
